@@ -37,6 +37,7 @@ from cnfgen.formula.cnfio import guess_output_format
 
 from cnfgen.clitools.cmdline import paginate_or_redirect_stdout
 from cnfgen.clitools.cmdline import setup_SIGINT
+from cnfgen.clitools.cmdline import early_comment_prefix
 from cnfgen.clitools.cmdline import CLIParser, CLIError, CLIHelpFormatter
 
 from cnfgen.clitools.cmdline import get_formula_helpers
@@ -404,7 +405,13 @@ def cli(argv=None, mode='output'):
 
     # Be lenient on non string arguments
     argv = [str(x) for x in argv]
-    with msg_prefix('* '):
+    early_prefix = early_comment_prefix(argv, 'opb',
+                                        [h.name for h in formula_helpers],
+                                        guess_from_filename=False)
+    if early_prefix == 'c ':
+        # DIMACS is not an output format of this tool
+        early_prefix = '* '
+    with msg_prefix(early_prefix):
         args = parse_command_line(argv, parser)
 
     #  Determine output format
